@@ -205,4 +205,104 @@ theorem outputs_are_skipped (cfg : HCfg) (eval : σ → SFrame → σ × EvalRes
       simp [isOwn, this]
     · exact ih _ _ o ho
 
+theorem dispatch_invoke_iff (cfg : HCfg) (f : SFrame) : dispatch cfg f = .invoke ↔ isInvoke cfg f = true := by
+  unfold dispatch isInvoke
+  cases hr : isRegTraffic cfg f <;> cases ho : isOwn cfg f <;> simp
+  · split <;> simp
+  · split <;> simp
+
+theorem step_invoked_eq (cfg : HCfg) (eval : σ → SFrame → σ × EvalRes) (env : σ) (f : SFrame) :
+    (step cfg eval .running env f).2.2.2 = isInvoke cfg f := by
+  cases hi : isInvoke cfg f with
+  | true =>
+    have hd := (dispatch_invoke_iff cfg f).mpr hi
+    simp only [step, hd]
+    cases he : eval env f with
+    | mk env' r => cases r <;> rfl
+  | false =>
+    have hd : dispatch cfg f ≠ .invoke := by
+      intro h; rw [(dispatch_invoke_iff cfg f).mp h] at hi; cases hi
+    simp only [step]
+    cases hd' : dispatch cfg f with
+    | skip => rfl
+    | stop o => rfl
+    | invoke => exact absurd hd' hd
+
+theorem step_state_cases (cfg : HCfg) (eval : σ → SFrame → σ × EvalRes) (env : σ) (f : SFrame) :
+    (step cfg eval .running env f).1 = .running ∨ (step cfg eval .running env f).1 = .stopped := by
+  cases (step cfg eval .running env f).1 <;> simp
+
+/-- C14 (exactly once, in order): the closure is run for exactly the frames of the subscription
+    that are neither the instance's own output nor registration traffic of its name — every one
+    of them, once, in the order delivered — up to the frame that stops it; an instance that is
+    still running has gone through its whole subscription that way -/
+theorem invocations_exact (cfg : HCfg) (eval : σ → SFrame → σ × EvalRes) (env : σ) (l : List SFrame) :
+    ∃ p q, l = p ++ q ∧ (run cfg eval .running env l).2.2.2.map (·.2) = p.filter (isInvoke cfg) ∧
+      ((run cfg eval .running env l).1 = .running → q = []) := by
+  induction l generalizing env with
+  | nil => exact ⟨[], [], rfl, by simp [run], fun _ => rfl⟩
+  | cons a t ih =>
+    have hinv := step_invoked_eq cfg eval env a
+    rcases step_state_cases cfg eval env a with hs | hs
+    · obtain ⟨p, q, hl, hi, hq⟩ := ih (step cfg eval .running env a).2.1
+      refine ⟨a :: p, q, by simp [hl], ?_, ?_⟩
+      · simp only [run, hs, List.map_append, hi, hinv, List.filter_cons]
+        cases isInvoke cfg a <;> simp
+      · simp only [run, hs]; exact hq
+    · refine ⟨[a], t, rfl, ?_, ?_⟩
+      · simp only [run, hs, stopped_inert, List.map_append, hinv, List.filter_cons, List.filter_nil]
+        cases isInvoke cfg a <;> simp
+      · simp only [run, hs, stopped_inert]; intro h; cases h
+
+/-- C16: once the subscription holds a later `.register` / `.unregister` of its name the
+    instance is stopped, whatever else happened -/
+theorem run_stopped_of_regtraffic (cfg : HCfg) (eval : σ → SFrame → σ × EvalRes) (st : HState) (env : σ)
+    (l : List SFrame) (f : SFrame) (hf : f ∈ l) (hr : isRegTraffic cfg f = true) (hlater : cfg.id < f.id) :
+    (run cfg eval st env l).1 = .stopped := by
+  induction l generalizing st env with
+  | nil => cases hf
+  | cons a t ih =>
+    cases st with
+    | stopped => simp [stopped_inert]
+    | running =>
+      rcases List.mem_cons.mp hf with rfl | hf'
+      · simp only [run, replaced_or_unregistered_stops cfg eval env f hr hlater, stopped_inert]
+      · simp only [run]; exact ih _ _ hf'
+
+/-- C14/C06: a subscription holds frames of the handler's context only (and its own marker) -/
+theorem subscription_ctx (cfg : HCfg) (resume : Resume) (hist live : List SFrame) (thr : SFrame) :
+    ∀ f ∈ subscription cfg resume hist live thr, f = thr ∨ f.ctx = cfg.ctx := by
+  intro f hf
+  unfold subscription at hf
+  cases resume <;> simp only [List.mem_append, List.mem_cons, List.mem_filter, decide_eq_true_eq] at hf
+  · rcases hf with hf | hf | hf
+    · exact Or.inr hf.2
+    · exact Or.inl hf
+    · exact Or.inr hf.2
+  · exact Or.inr hf.2
+  · rcases hf with hf | hf | hf
+    · exact Or.inr hf.1.2
+    · exact Or.inl hf
+    · exact Or.inr hf.2
+
+/-- C14: every frame of its context appended after it subscribed is in the subscription, once
+    per occurrence and in order: the live part is the context's sub-stream -/
+theorem subscription_live_complete (cfg : HCfg) (resume : Resume) (hist live : List SFrame) (thr : SFrame) :
+    (live.filter (fun f => f.ctx = cfg.ctx)).Sublist (subscription cfg resume hist live thr) ∧
+    ∃ pre, subscription cfg resume hist live thr = pre ++ live.filter (fun f => f.ctx = cfg.ctx) := by
+  unfold subscription
+  cases resume with
+  | head =>
+    refine ⟨?_, ⟨hist.filter (fun f => f.ctx = cfg.ctx) ++ [thr], by simp⟩⟩
+    exact List.Sublist.trans (List.Sublist.cons thr (List.Sublist.refl _)) (List.sublist_append_right _ _)
+  | tail => exact ⟨List.Sublist.refl _, ⟨[], rfl⟩⟩
+  | after id =>
+    refine ⟨?_, ⟨(hist.filter (fun f => f.ctx = cfg.ctx)).filter (fun f => id < f.id) ++ [thr], by simp⟩⟩
+    exact List.Sublist.trans (List.Sublist.cons thr (List.Sublist.refl _)) (List.sublist_append_right _ _)
+
+/-- C17: a handler resuming from tail is not handed anything that was stored before it
+    subscribed: historical triggers are not re-executed -/
+theorem tail_sees_no_history (cfg : HCfg) (hist live : List SFrame) (thr : SFrame) :
+    subscription cfg .tail hist live thr = live.filter (fun f => f.ctx = cfg.ctx) := rfl
+
 end Xs.Serve
